@@ -388,11 +388,26 @@ func (p *Prog) AllSrcFuncs(pkgs ...*packages.Package) []*ssa.Function {
 			}
 		}
 	}
+	// token.Pos order depends on (parallel) file load order; sort by file name and offset instead.
+	type key struct {
+		file string
+		off  int
+		name string
+	}
+	keys := make(map[*ssa.Function]key, len(out))
+	for _, f := range out {
+		ps := p.Fset.Position(f.Pos())
+		keys[f] = key{ps.Filename, ps.Offset, f.String()}
+	}
 	sort.Slice(out, func(i, j int) bool {
-		if out[i].Pos() != out[j].Pos() {
-			return out[i].Pos() < out[j].Pos()
+		a, b := keys[out[i]], keys[out[j]]
+		if a.file != b.file {
+			return a.file < b.file
 		}
-		return out[i].String() < out[j].String()
+		if a.off != b.off {
+			return a.off < b.off
+		}
+		return a.name < b.name
 	})
 	return out
 }
